@@ -119,6 +119,8 @@ def run(ctx):
                             "try/throw, boundary integers) run on the real compiler+VM and on the Lean specification "
                             "semantics; non-trivial = distinct program producing output or a fatal outcome")
     ctx.coverage["traces_validated_against_impl"] = ctx.evaluations
+    if ctx.evaluations < 0.7 * n:
+        ctx.broken.append(f"generator drift: only {ctx.evaluations} of {n} generated programs were accepted and inside the model")
     if ctx.broken and not ctx.violations:
         ctx.violation({"kind": "broken-tie", "broken": ctx.broken[:10], "log": st.get("log", "")[-3000:]},
                       "proof obligation or model/code correspondence no longer checks: " + "; ".join(ctx.broken[:3]),
